@@ -158,6 +158,8 @@ def call_builtin(run, name, args, kwargs, node, fr):
         run.assume(z3.Length(r) == z3.If(hi > lo, hi - lo, 0))
         run.assume(z3.ForAll([i], z3.Implies(z3.And(0 <= i, i < z3.Length(r)), r[i] == lo + i)))
         return Val(rty, r)
+    if name == "tuple" and False:
+        pass
     if name in ("min", "max"):
         if len(args) == 2:
             a, b = run.coerce(args[0], TInt), run.coerce(args[1], TInt)
@@ -464,6 +466,21 @@ def dict_method(run, d, attr, args, kwargs, node):
         h = run.x.reg.stubs.get(("method2", ty.name, "update"))
         if h is not None:
             return h(run, d, args, kwargs, node)
+        other = args[0]
+        if isinstance(other, Val) and isinstance(other.ty, TOpt):
+            other = ops.unopt(run, other, node)
+        if isinstance(other, Val) and isinstance(other.ty, TDict) and other.ty.k == ty.k and other.ty.v == ty.v and not ty.ordered:
+            # d.update(o): pointwise, `o` wins
+            kx = z3.FreshConst(ty.k.sort(), "uk")
+            new = ty.fresh("updated")
+            o = other.t
+            oty = other.ty
+            ax = z3.ForAll([kx], z3.And(z3.Select(ty.has(new), kx) == z3.Or(z3.Select(ty.has(t), kx), z3.Select(oty.has(o), kx)),
+                                        z3.Select(ty.val(new), kx) == z3.If(z3.Select(oty.has(o), kx), z3.Select(oty.val(o), kx), z3.Select(ty.val(t), kx))))
+            run.pc.append(ax)
+            nv = Val(ty, new)
+            run.wf(nv)
+            return NONE, nv
         raise err("dict.update: use a stub")
     raise err(f"dict method {attr}")
 
